@@ -69,3 +69,35 @@ Definition C13_stop_target : Prop :=
     (exists b, In b canon /\ bnum b = start) ->
     exists c', cons_fold_aside cons0 (map as_new (filter is_nu (fst res))) = Some c' /\
                (snd res = JStop -> stop_reached c canon merged start (fst res) (cs_stack c')).
+
+(* ------------------------------------------------------------------ the stop clause at stream level, cursor mode *)
+
+(* The same in cursor mode: the hypotheses of c07_seamless_cursor_nu (Spec/C07_More_Spec.v: the consumer at the cursor
+   holds hc, canonical, and hf, pending forked blocks, above the cursor LIB block L), the stop block S is a block of the
+   chain and lies beyond the cursor block.  The start point is the first canonical block above L.  A run that ends with
+   stop-block-reached stopped on the event that announces block S and the consumer - the forked blocks undone - holds,
+   from the start point on, exactly canon up to block S: whether S is reached in the files (after the resolver's Undo /
+   Irreversible events), in the hub's answer to the cursor (Undo down to the junction, New up to the head) or at the join,
+   or live.  Scope: with the cursor block at or beyond S the consumer already holds block S or the resolver never reaches
+   its decision within the bundle of S (c13_stop_full_refuted); with S on a skipped number the file source ends at the
+   bundle of S and the statement about what the consumer then holds needs the resolver to have decided
+   (c13_stop_cursor_partial has that hypothesis, `reached`). *)
+Definition C13_stop_cursor_holds : Prop :=
+  forall (U : list block) (c : jcfg) (w : world) (ps : list (N * N)) (merged_end : N) (canon forked : list block)
+         (cu : cursor) (L : block) (rest hc hf : list block),
+    wf_b U = true -> lib_ok_b LNone U = true ->
+    hub_of_universe U c w ->
+    chain_ok canon -> incl canon U ->
+    let merged := filter (fun b => bnum b <? merged_end) canon in
+    eventual_tip c w canon ->
+    j_mode c = 1 -> j_cursor c = Some cu -> has_nu (j_filter c) (j_custom c) = true ->
+    0 < j_bundle c -> Forall (fun b => bnum b < file_bound) merged ->
+    from_num (rn (cu_lib cu)) canon = L :: rest -> bref L = cu_lib cu ->
+    cursor_state canon forked cu L hc hf ->
+    Forall (fun x => In x U) hf ->
+    (cu_step cu = SUndo -> exists X, In X U /\ bref X = cu_blk cu /\ branch_from L (hc ++ hf ++ [X])) ->
+    rn (cu_blk cu) < j_stop c -> (exists bS, In bS canon /\ bnum bS = j_stop c) ->
+    let res := stream_run c w ps merged_end merged forked in
+    let start := match rest with r1 :: _ => bnum r1 | [] => bnum L + 1 end in
+    exists c', cons_fold_aside (mkCons (rev (hc ++ hf)) 0 false) (map as_new (filter is_nu (fst res))) = Some c' /\
+               (snd res = JStop -> stop_reached c canon merged start (fst res) (cs_stack c')).
